@@ -100,6 +100,7 @@ def prop_C11(run):
     rules_tab.bit_source(run)
     import rules_mpt
     rules_mpt.get_blocks_rules(run)
+    rules_mpt.blocks_in_output_order(run)
     rules_mpt.write_rules(run)
     rules_tab.tab_cli_groups(run)               # what is formatted is what gets written, for every group that names a file
     # bit positions, output byte counts and addresses in address units never meet in one value
@@ -359,6 +360,7 @@ def prop_C12(run):
     rules_mpt.symbol_bank_rule(run)
     rules_mpt.listing_reads_within_span(run)
     rules_mpt.listing_excerpt_one_line(run)
+    rules_mpt.symbol_listing_visits_all(run)
     # the symbol listings take the children of a scope from a hash map: listed in declaration order only through the sort
     import rules_det
     rules_det.det1(run, fns=[f for f in run.prog.real_fns() if (f.raw.get("root") or f.id).startswith("util::symbol_format::")])
